@@ -3,13 +3,13 @@ CONSTANTS
   Paths = {"a", "b"}
   EditPlan <- Plan11
   Twin = FALSE
-  Modes = {"inc", "incskip"}
+  Modes = {"inc", "incskip", "force"}
   FlagSet = {"none"}
-  Targets = {"dot"}
+  Targets = {"dir", "dot"}
   Bigs = {FALSE}
   FaultKinds = {"readerr", "treeloss", "dataloss"}
   MaxVictim = 1
   Emit = FALSE
-INVARIANT IncEqualsFull
+INVARIANT NeverDamagedParent
 VIEW View
 CHECK_DEADLOCK FALSE
